@@ -26,7 +26,7 @@ structure ReloadFacts (P : Params V) (d0 d d' : Doc V) (i : SaveInfo) (t : List 
   len : t.length = (prep d).size + 1
   pending : ∀ (j : Nat) (v : V) (g : Nat), chLookup (prep d).st2.changes j = some (v, g) →
       ∀ c, resolve (reloaded d'.st t c) j = .val v
-  xref : ∀ c, resolve (reloaded d'.st t c) (prep d).xid = .val (P.xrefVal i)
+  xref : ∀ c, resolve (reloaded d'.st t c) (prep d).xid = .val (P.xrefRec d.tr (prep d).infoRef i)
   old : ∀ j : Nat, j < d0.st.refs.length → chLookup (prep d).st2.changes j = none →
       (∀ sid idx, d0.st.refs[j]? = some (.stream sid idx) → chLookup (prep d).st2.changes sid = none) →
       ∀ c, sameRd (resolve (reloaded d'.st t c) j) (resolve d0.st j)
@@ -95,7 +95,7 @@ theorem reload_table_facts (P : Params V) (L : Layout) (hL : L.Pos) (d0 d d' : D
     (by rw [hrowlen]; exact pf.size_ge) hb.pairs_entry hdom
   refine ⟨t, ht, ?_⟩
   -- reads in the reloaded state
-  have hobjs : d'.st.objs = w.objs ++ [⟨w.len, (prep d).xid, 0, P.xrefVal i, []⟩] := by
+  have hobjs : d'.st.objs = w.objs ++ [⟨w.len, (prep d).xid, 0, P.xrefRec d.tr (prep d).infoRef i, []⟩] := by
     rw [hst]; simp only [commit]; rw [hinfo]
   have hst' : d'.st.start = (prep d).st2.start := by rw [hst]; rfl
   have hstart0 : d'.st.start = d0.st.start := hi'.start_eq
@@ -184,7 +184,7 @@ theorem reload_after_save (P : Params V) (L : Layout) (hL : L.Pos) (d0 d d' : Do
     intro j; rw [hst]; simp only [commit]; rw [hinfo]; simp [chLookup_chInsert]
   have hroot' : ∃ v, resolve (reloaded d'.st t c) d.tr.root.1 = .val v := by
     by_cases hx : d.tr.root.1 = (prep d).xid
-    · exact ⟨P.xrefVal i, by rw [hx]; exact facts.xref c⟩
+    · exact ⟨_, by rw [hx]; exact facts.xref c⟩
     · rcases Option.eq_none_or_eq_some (chLookup (prep d).st2.changes d.tr.root.1) with hc | ⟨⟨v, g⟩, hc⟩
       · have hc' : chLookup d'.st.changes d.tr.root.1 = none := by rw [hlook, if_neg hx]; exact hc
         have hlt : d.tr.root.1 < d0.st.refs.length := by
